@@ -22,21 +22,35 @@
  *	to 1 and the main vector is parsed.
  *	optreset is set before every parse except the first one of the
  *	process (which tests the initial state).
- *  answer: R <events> <optind>
+ *  answer: R <events> <optind> <nwarn>
  *	events:	"-" or comma-separated labels reached, in order; a label is
  *		the option string of the GETOPT_OPT/GETOPT_OPTARG reached, ":"
  *		for GETOPT_MISSING_ARG, "?" for GETOPT_DEFAULT;
  *		GETOPT_OPTARG labels are followed by "=" and the hex of optarg
  *		("_" for the empty string).
+ *		"Rich" blocks (tables 6..13: the GETOPT_DEFAULT block, including
+ *		every label which falls through into it, and a separate
+ *		GETOPT_MISSING_ARG block) cannot know which label was reached;
+ *		they record what a program can observe there:
+ *		<"?" or ":"><hex of ch>[=<hex of optarg>]@<optind>
+ *		where ch is the string GETOPT returned and "=..." is present iff
+ *		optarg != NULL.  Labels which share a statement record ch as
+ *		the label name.
+ *	nwarn:	number of lines the library wrote to stderr during the parse
+ *		of the main vector.
  *
  * Every argv string is an exact-size heap block, and so is the argv array
  * (argc + 1 pointers, NULL terminated).
  *
- * The tables must stay in step with TABLES in vlib/c18.py.
+ * The tables must stay in step with TABLES in vlib/c18.py.  THE POSITION OF
+ * EVERY LINE INSIDE A GETOPT_SWITCH OF TABLES 6..13 IS PART OF THE TEST (the
+ * library indexes its option table by source line): do not reformat them.
  */
+#define _GNU_SOURCE		/* fopencookie */
 #include <sys/time.h>
 
 #include <assert.h>
+#include <unistd.h>
 
 #include "vh.h"
 
@@ -62,30 +76,65 @@ ev_put(const char * s, size_t n)
 	evbuf[evlen] = '\0';
 }
 
-/* Record that a label was reached. */
+/* Start an event: every label consumes at least one character of argv. */
 static void
-rec(const char * label, const char * arg)
+ev_begin(void)
+{
+
+	assert(nev < maxev && "the option loop makes progress");
+	if (nev++)
+		ev_put(",", 1);
+}
+
+static void
+ev_hex(const char * s)
 {
 	static const char hd[] = "0123456789abcdef";
 	size_t i;
 
-	/* Every label consumes at least one character of the command line. */
-	assert(nev < maxev && "the option loop makes progress");
-	if (nev++)
-		ev_put(",", 1);
+	if (s[0] == '\0')
+		ev_put("_", 1);
+	for (i = 0; s[i] != '\0'; i++) {
+		char h[2];
+
+		h[0] = hd[((unsigned char)s[i]) >> 4];
+		h[1] = hd[((unsigned char)s[i]) & 15];
+		ev_put(h, 2);
+	}
+}
+
+/* Record that a label was reached. */
+static void
+rec(const char * label, const char * arg)
+{
+
+	ev_begin();
 	ev_put(label, strlen(label));
 	if (arg != NULL) {
 		ev_put("=", 1);
-		if (arg[0] == '\0')
-			ev_put("_", 1);
-		for (i = 0; arg[i] != '\0'; i++) {
-			char h[2];
-
-			h[0] = hd[((unsigned char)arg[i]) >> 4];
-			h[1] = hd[((unsigned char)arg[i]) & 15];
-			ev_put(h, 2);
-		}
+		ev_hex(arg);
 	}
+}
+
+/*
+ * Record that a block was reached which several labels share with
+ * GETOPT_DEFAULT (or a GETOPT_MISSING_ARG block): what GETOPT returned, optarg
+ * and optind.
+ */
+static void
+rec_rich(const char * prefix, const char * ch)
+{
+	char num[32];
+
+	ev_begin();
+	ev_put(prefix, strlen(prefix));
+	ev_hex(ch);
+	if (optarg != NULL) {
+		ev_put("=", 1);
+		ev_hex(optarg);
+	}
+	snprintf(num, sizeof(num), "@%d", optind);
+	ev_put(num, strlen(num));
 }
 
 /* Leave the loop once ${limit} labels have been reached (limit >= 1). */
@@ -269,9 +318,176 @@ parse_t5(int argc, char ** argv, int limit)
 	}
 }
 
+/*
+ * Tables 6..13: compact layouts.  The library's table has one slot per source
+ * line between GETOPT_SWITCH (slot 0) and GETOPT_DEFAULT (slot nopts); these
+ * tables put labels into the boundary slots.
+ */
+
+/*
+ * Table 6: slots 1,2 (two labels, one statement), 5, and the last two slots:
+ * GETOPT_OPTARG labels falling through into the default block.
+ */
+static void
+parse_t6(int argc, char ** argv, int limit)
+{
+	const char * ch;
+
+	while ((ch = GETOPT(argc, argv)) != NULL) {
+		GETOPT_SWITCH(ch) {
+		GETOPT_OPT("-a"):
+		GETOPT_OPT("--all"):
+			rec(ch, NULL);
+			break;
+		GETOPT_OPT("-n"):
+			rec("-n", NULL);
+			break;
+		GETOPT_OPTARG("-x"):
+		GETOPT_OPTARG("--xlong"):
+		GETOPT_DEFAULT:
+			rec_rich("?", ch);
+			break;
+		}
+		ABANDON(limit);
+	}
+}
+
+/* Table 7: "-h falls into usage()": a short GETOPT_OPT in the last slot. */
+static void
+parse_t7(int argc, char ** argv, int limit)
+{
+	const char * ch;
+
+	while ((ch = GETOPT(argc, argv)) != NULL) {
+		GETOPT_SWITCH(ch) {
+		GETOPT_OPTARG("-o"):
+		GETOPT_OPTARG("--out"):
+			rec(ch, optarg);
+			break;
+		GETOPT_OPT("--help"):
+		GETOPT_OPT("-h"):
+		GETOPT_DEFAULT:
+			rec_rich("?", ch);
+			break;
+		}
+		ABANDON(limit);
+	}
+}
+
+/*
+ * Table 8: GETOPT_MISSING_ARG in slot 1, a long GETOPT_OPT in the last slot
+ * falling into the default block.
+ */
+static void
+parse_t8(int argc, char ** argv, int limit)
+{
+	const char * ch;
+
+	while ((ch = GETOPT(argc, argv)) != NULL) {
+		GETOPT_SWITCH(ch) {
+		GETOPT_MISSING_ARG:
+			rec_rich(":", ch);
+			break;
+		GETOPT_OPTARG("--num"):
+		GETOPT_OPTARG("-n"):
+			rec(ch, optarg);
+			break;
+		GETOPT_OPT("-V"):
+		GETOPT_OPT("--version"):
+		GETOPT_DEFAULT:
+			rec_rich("?", ch);
+			break;
+		}
+		ABANDON(limit);
+	}
+}
+
+/*
+ * Table 9: a label in slot 0 (on the GETOPT_SWITCH line); GETOPT_MISSING_ARG
+ * in the last slot, a GETOPT_OPTARG directly above it, both falling into the
+ * default block.
+ */
+static void
+parse_t9(int argc, char ** argv, int limit)
+{
+	const char * ch;
+
+	while ((ch = GETOPT(argc, argv)) != NULL) {
+		GETOPT_SWITCH(ch) { GETOPT_OPTARG("-s"):
+			rec("-s", optarg);
+			break;
+		GETOPT_OPT("-t"):
+			rec("-t", NULL);
+			break;
+		GETOPT_OPTARG("--size"):
+		GETOPT_MISSING_ARG:
+		GETOPT_DEFAULT:
+			rec_rich("?", ch);
+			break;
+		}
+		ABANDON(limit);
+	}
+}
+
+/* Table 10 (702 slots) is at the end of the file: it changes __LINE__. */
+static void parse_t10(int, char **, int);
+
+/* Table 11: the whole switch on one line: a table of zero slots. */
+static void
+parse_t11(int argc, char ** argv, int limit)
+{
+	const char * ch;
+
+	while ((ch = GETOPT(argc, argv)) != NULL) {
+		GETOPT_SWITCH(ch) { GETOPT_DEFAULT: rec_rich("?", ch); break; }
+		ABANDON(limit);
+	}
+}
+
+/* Table 12: one slot, which is the first and the last: slot 0. */
+static void
+parse_t12(int argc, char ** argv, int limit)
+{
+	const char * ch;
+
+	while ((ch = GETOPT(argc, argv)) != NULL) {
+		GETOPT_SWITCH(ch) { GETOPT_OPTARG("-x"):
+		GETOPT_DEFAULT:
+			rec_rich("?", ch);
+			break;
+		}
+		ABANDON(limit);
+	}
+}
+
+/*
+ * Table 13: one line per option, each with its own statement; slot 1 empty,
+ * GETOPT_MISSING_ARG between two labels, the last slot a long GETOPT_OPT.
+ */
+static void
+parse_t13(int argc, char ** argv, int limit)
+{
+	const char * ch;
+
+	while ((ch = GETOPT(argc, argv)) != NULL) {
+		GETOPT_SWITCH(ch) {
+
+		GETOPT_OPT("-r"): rec("-r", NULL); break;
+		GETOPT_MISSING_ARG: rec_rich(":", ch); break;
+		GETOPT_OPTARG("--in"): rec("--in", optarg); break;
+		GETOPT_OPTARG("-i"): rec("-i", optarg); break;
+		GETOPT_OPT("--raw"): rec("--raw", NULL); break;
+		GETOPT_DEFAULT: rec_rich("?", ch); break;
+		}
+		ABANDON(limit);
+	}
+}
+
 typedef void (* parsefn)(int, char **, int);
 static const parsefn tables[] = {
-	parse_t0, parse_t1, parse_t2, parse_t3, parse_t4, parse_t5
+	parse_t0, parse_t1, parse_t2, parse_t3, parse_t4, parse_t5,
+	parse_t6, parse_t7, parse_t8, parse_t9, parse_t10, parse_t11,
+	parse_t12, parse_t13
 };
 #define NTABLES (sizeof(tables) / sizeof(tables[0]))
 
@@ -359,6 +575,59 @@ watchdog(int on)
 		vh_die("setitimer");
 }
 
+/*
+ * While a vector is parsed the C library's stderr is this stream: it counts
+ * the lines written (the library's warnings) and passes everything through
+ * to file descriptor 2 (assertion messages must stay visible; sanitizer
+ * reports do not use the stdio stream at all).
+ */
+static FILE * capf;
+static FILE * real_stderr;
+static size_t nwarnlines;
+
+static ssize_t
+cap_write(void * cookie, const char * buf, size_t n)
+{
+	size_t i, done = 0;
+
+	(void)cookie;
+	for (i = 0; i < n; i++)
+		if (buf[i] == '\n')
+			nwarnlines++;
+	while (done < n) {
+		ssize_t w = write(2, buf + done, n - done);
+
+		if (w <= 0)
+			break;
+		done += (size_t)w;
+	}
+	return ((ssize_t)n);
+}
+
+static void
+capture(int on)
+{
+	static char linebuf[1024];
+
+	if (capf == NULL) {
+		cookie_io_functions_t io;
+
+		memset(&io, 0, sizeof(io));
+		io.write = cap_write;
+		if ((capf = fopencookie(NULL, "w", io)) == NULL)
+			vh_die("fopencookie");
+		setvbuf(capf, linebuf, _IOLBF, sizeof(linebuf));
+		real_stderr = stderr;
+	}
+	if (on) {
+		nwarnlines = 0;
+		stderr = capf;
+	} else {
+		fflush(capf);
+		stderr = real_stderr;
+	}
+}
+
 static void
 av_free(struct av * a)
 {
@@ -422,10 +691,47 @@ main(void)
 			evbuf[0] = '\0';
 		maxev = av_maxev(&a);
 		watchdog(1);
+		capture(1);
 		tables[t](a.argc, a.argv, -1);
+		capture(0);
 		watchdog(0);
-		printf("R %s %d\n", nev ? evbuf : "-", optind);
+		printf("R %s %d %zu\n", nev ? evbuf : "-", optind, nwarnlines);
 		av_free(&a);
 	}
 	return (0);
+}
+
+/*
+ * Table 10: a sparse table of 702 slots (an option switch in the style of a
+ * large program: several hundred source lines), labels in slots 1, 255, 256,
+ * 259 and in the last two slots (700, 701: compact, falling into the default
+ * block).  "#line" makes the GETOPT_SWITCH line 1000; nothing follows this
+ * function.
+ */
+static void
+parse_t10(int argc, char ** argv, int limit)
+{
+	const char * ch;
+
+	while ((ch = GETOPT(argc, argv)) != NULL) {
+#line 1000
+		GETOPT_SWITCH(ch) {
+		GETOPT_OPT("-a"):
+			rec("-a", NULL);
+			break;
+#line 1255
+		GETOPT_OPTARG("-m"):
+		GETOPT_OPT("--mid"):
+			rec(ch, optarg);
+			break;
+		GETOPT_OPTARG("--max"): rec("--max", optarg); break;
+#line 1700
+		GETOPT_OPTARG("-z"):
+		GETOPT_OPTARG("--zz"):
+		GETOPT_DEFAULT:
+			rec_rich("?", ch);
+			break;
+		}
+		ABANDON(limit);
+	}
 }
